@@ -13,6 +13,7 @@ mod _xsd_date_time;
 pub use _xsd_date_time::XsdDateTime;
 mod _number;
 pub use _number::SparqlNumber;
+pub(crate) use _number::xpath_round;
 
 use crate::ns::{
     RDF_LANG_STRING, XSD_BOOLEAN, XSD_DATE_TIME, XSD_DECIMAL, XSD_DOUBLE, XSD_FLOAT, XSD_INTEGER,
